@@ -666,6 +666,27 @@ func init() {
 					}
 				}
 				c.Check(ok, key, ci.Pos(), "wait %s is bounded by a dominating comparison with c.maxQueueingTimeNs: %v", v, ok)
+				// the wait a caller is told is the one of ITS reservation: every non-zero alternative is computed from the
+				// result of the atomic add that reserved the slot, not from an estimate read before it (two concurrent
+				// callers would otherwise be given the same pass time)
+				own := true
+				for _, cs := range splitPhiCases(stripConv(d), ci.Block(), nil, 0) {
+					cv := stripConv(cs.val)
+					if _, isK := constInt(cv); isK {
+						continue
+					}
+					if !dependsOnValue(cv, func(x ssa.Value) bool {
+						call, isCall := x.(*ssa.Call)
+						if !isCall {
+							return false
+						}
+						an, isAt := atomicFuncName(call)
+						return isAt && an == "AddInt64"
+					}) {
+						own = false
+					}
+				}
+				c.Check(own, key+" / own-reservation", ci.Pos(), "the wait is computed from the result of the atomic add that reserved this caller's slot")
 			}
 			if n == 0 {
 				c.Violate(fnKey(f)+" / ShouldWait", f.Pos(), "throttling checker never queues")
